@@ -117,18 +117,20 @@ Definition stmt_lab (st : stmt) : option str :=
 Definition stmt_chains (st : stmt) : list chain :=
   let n := length (render_stmt st) in
   match st with
-  | SCall None d => names_d d :: level_heads (flat_map subs_seg (stmt_segs st)) (S n)
-  | SIfCall None _ _ d => names_d d :: level_heads (flat_map subs_seg (stmt_segs st)) (S n)
-  | SForm _ _ _ | SCall _ _ | SIfCall _ _ _ _ | SAssoc _ _ =>
+  | SCall _ d => names_d d :: level_heads (flat_map subs_seg (stmt_segs st)) (S n)
+  | SIfCall _ _ _ d => names_d d :: level_heads (flat_map subs_seg (stmt_segs st)) (S n)
+  | SForm _ _ _ | SAssoc _ _ =>
     flat_map seg_heads0 (stmt_segs st) ++ level_heads (flat_map subs_seg (stmt_segs st)) n
+  | SGoto _ e =>     (* scanned without its label list *)
+    flat_map seg_heads0 (goto_segs e) ++ level_heads (flat_map subs_seg (goto_segs e)) (length (render_segs (goto_segs e)))
   | _ => []
   end.
 
-(* where SUBCALL_RE must not see a CALL: unlabelled forms and ASSOCIATE headers *)
+(* where SUBCALL_RE must not see a CALL: forms (behind their label) and ASSOCIATE headers *)
 Definition plain_ok (st : stmt) : bool :=
   match st with
-  | SForm None _ _ => plain_text (sh_segs (stmt_segs st))
-  | SAssoc _ _ => plain_text (sh_segs (stmt_segs st))
+  | SForm _ _ _ => plain_text (strip_label (sh_segs (stmt_segs st)))
+  | SAssoc _ _ => plain_text (strip_label (sh_segs (stmt_segs st)))
   | _ => true
   end.
 
@@ -165,20 +167,25 @@ Definition is_none {A} (o : option A) : bool := match o with None => true | Some
 
 (* the statement falls through the earlier branches of the cascade *)
 Definition cascade_ok (line : str) : bool :=
-  negb (format_re line) && negb (end_associate_re line) && is_none (associate_re line) && negb (arith_goto_re line).
+  negb (format_re line) && negb (end_associate_re line) && is_none (associate_re line)
+  && is_none (goto_rewrite false [] line).
 
-(* the statement is dropped by the FORMAT or the GO TO branch *)
-Definition cascade_skips (line : str) : bool :=
-  format_re line || (negb (end_associate_re line) && is_none (associate_re line) && arith_goto_re line).
-
-Definition unit_chains (st : stmt) : list chain := if seg_stmt st then stmt_chains st else [].
+Definition unit_chains (st : stmt) : list chain :=
+  match st with SGoto _ _ => stmt_chains st | _ => if seg_stmt st then stmt_chains st else [] end.
 
 (* the statement reaches _add_procedure_calls when it holds a reference (decided by evaluating the
-   recognisers on the rendered text), or is skipped as FORMAT / GO TO *)
+   recognisers on the rendered text); a FORMAT is skipped; a computed GO TO is scanned without its
+   label list *)
 Definition step_ok (st : stmt) : bool :=
   match st with
-  | SFormat _ _ _ => cascade_skips (render_stmt st)
-  | SGoto _ _ => cascade_skips (render_stmt st)
+  | SFormat _ _ _ => format_re (render_stmt st)
+  | SGoto _ e =>
+    let line := render_stmt st in
+    negb (format_re line) && negb (end_associate_re line) && is_none (associate_re line)
+    && match goto_rewrite false [] line with
+       | Some line' => str_eqb line' (render_segs (goto_segs e)) && (call_gate line' || is_nil (stmt_chains st))
+       | None => false
+       end
   | SAssoc _ _ => false
   | SEndAssoc => false
   | _ => cascade_ok (render_stmt st) && (call_gate (render_stmt st) || is_nil (stmt_chains st))
@@ -188,7 +195,7 @@ Definition assoc_free_stmt (st : stmt) : bool := match st with SAssoc _ _ | SEnd
 
 (* ------------------------------------------------------------------ resolution *)
 Definition ent_flags_ok (e : entity) : bool :=
-  match e with EFunc _ _ ht => ht | EVar _ pt => pt | _ => true end.
+  match e with EVar _ pt => pt | _ => true end.
 
 Fixpoint keys_unique (l : labels) : bool :=
   match l with
@@ -212,23 +219,13 @@ Definition stmt_inner (st : stmt) : list chain :=
   match st with
   | SCall _ d => inner_refs_d [] d ++ inner_args d
   | SIfCall _ _ c d => inner_e c ++ inner_refs_d [] d ++ inner_args d
+  | SGoto _ e => inner_e e
   | _ => flat_map seg_inner (stmt_segs st)
-  end.
-
-(* a labelled CALL carries an argument list (region 4 otherwise) *)
-Definition lab_call_ok (st : stmt) : bool :=
-  match st with
-  | SCall (Some _) d => last_has_args d
-  | SIfCall (Some _) _ _ d => last_has_args d
-  | _ => true
   end.
 
 (* the hypotheses of exactness *)
 Definition resolvable (tb : symtab) (ss : list stmt) : bool :=
-  forallb wf_stmt ss && forallb plain_ok ss && forallb step_ok ss     (* well formed; every statement reaches the scan or is FORMAT / GO TO *)
+  forallb wf_stmt ss && forallb plain_ok ss && forallb step_ok ss     (* well formed; every statement reaches the scan or is a FORMAT *)
   && tb_ok tb                                                         (* correct name tables (C07) *)
-  && forallb lab_call_ok ss                                           (* region 4 *)
-  && negb (region_goto_expr ss)                                       (* region 9 *)
   && negb (region_intrinsic_named tb ss)                              (* region 3 *)
-  && negb (region_same_last tb ss)                                    (* region 2 *)
   && forallb (fun ch => is_nil (classify0 tb ch)) (flat_map stmt_inner ss).   (* inner parts of designators are variables *)
